@@ -9,7 +9,7 @@ structure St where
   br : BitsReader := {}
 
 def showR (b : BitsReader) (v : Word) : String :=
-  if b.panicked then "panic" else s!"{wordToHex v} eof={if b.eof then 1 else 0}"
+  if b.panicked then "panic" else s!"{wordToHex v} eof={if b.err then 1 else 0}"
 
 def step (st : St) (toks : List String) : St × String :=
   match toks with
